@@ -32,14 +32,22 @@ EXPLANATION = (
     "UnknownURI or to have a false get_error(); (12) the cap given in the write slot reaches ro_uri (as is or inside a longer "
     "string) only on paths that found the 'ro.' or 'imm.' prefix on it; (13) from_string and helpers: on every path from a successful "
     "'imm.'/'ro.' prefix test to the first kind test, the variable the kind tests examine was re-bound to the tested string "
-    "minus exactly that prefix (constant-folded slice bound). "
+    "minus exactly that prefix (constant-folded slice bound); "
+    "(14) NodeMaker.create_from_cap: every key under which a node is looked up or remembered in a container that outlives "
+    "the call (the node cache) is an injective function - the string itself, a copy, constant/context tag + string, a tuple "
+    "with the string as a member - of exactly the string handed to uri.from_string, never a slice or a many-to-one string "
+    "method image of it (a key that drops the alleged prefix lets 'ro.'+writecap return the cached writeable node of the "
+    "bare cap), followed through all reaching definitions of the key; (15) the string create_from_cap hands to "
+    "uri.from_string is one of the given caps itself and UnknownNode receives (writecap, readcap) themselves in their own "
+    "slots, never a derived string. "
     "Undecided: hash functions behind the derivations (C17), behaviour of node classes built from the caps; value-level "
     "clauses: which error class a refusal carries and its text, that BadURIError of a malformed known kind is reported, that "
     "the dispatch prefix literal matches the class parsed (init_from_string's own STRING_RE rejects a mismatch), the exact "
     "slices taken in UnknownNode.__init__ / strip_prefix_for_ro when a prefix is exchanged or dropped, that opaque UnknownNodes (rw_uri = ro_uri = None) record an error, that "
-    "DirectoryNode raises the recorded error, forward-compatibility behaviour of the x-tahoe-future-test caps, node cache "
-    "and blacklist handling in create_from_cap.")
-TECHNIQUE = "static analysis: def-use dependence of constructor arguments, constant tables cross-checked, CFG dominance / small abstract interpretation (copies of the given caps, prefix/truth facts per path) in from_string and UnknownNode.__init__, provenance of from_string's return values through reaching definitions and helper calls, path-wise monitors (refusal -> error set; prefix found -> prefix cut; parse error examined -> ro_uri stored)"
+    "DirectoryNode raises the recorded error, forward-compatibility behaviour of the x-tahoe-future-test caps, which nodes "
+    "create_from_cap chooses to remember (only the key discipline is decided; a key built by a function call other than "
+    "the known lossy string methods stops the analysis with exit 2 rather than being judged) and its blacklist handling.")
+TECHNIQUE = "static analysis: def-use dependence of constructor arguments, constant tables cross-checked, CFG dominance / small abstract interpretation (copies of the given caps, prefix/truth facts per path) in from_string and UnknownNode.__init__, provenance of from_string's return values through reaching definitions and helper calls, path-wise monitors (refusal -> error set; prefix found -> prefix cut; parse error examined -> ro_uri stored), injectivity of the node-cache key in the parsed string over all reaching definitions"
 
 URI_MOD = "allmydata.uri"
 SECRET_FOR_RO = {"writekey"}
@@ -347,6 +355,215 @@ class _ParseWalk:
         if not n_st:
             raise AnalysisError("%s reads %s but no store into it was found" % (fn.qual, path))
         self._leaf(fn, n, "memo[%s]" % di)
+
+
+# what bytes/str methods return when they do not return the whole receiver: a part or a many-to-one image of it
+_LOSSY_METHODS = {"strip", "lstrip", "rstrip", "removeprefix", "removesuffix", "replace", "lower", "upper", "casefold",
+                  "swapcase", "title", "capitalize", "split", "rsplit", "splitlines", "partition", "rpartition", "translate",
+                  "expandtabs"}
+_KEYED_READS = {"get", "pop", "setdefault", "__getitem__", "__contains__"}
+_KEYED_WRITES = {"setdefault", "__setitem__"}
+
+
+class _CapFlow:
+    """Where the given cap strings of NodeMaker.create_from_cap go (flow-sensitive, through reaching definitions).
+
+    copies(n, e) - the parameters / None the value of `e` at node `n` may *be* (copies, `a or b`, `a if c else b`), plus
+                   every defining expression that is something else (a derived value);
+    vid(n, e)    - an identity of the value: equal identities = same value;
+    inj(n, e)    - is `e` an injective function of a cap string: leaves (whole cap values it contains), lossy (parts /
+                   many-to-one transformations of a cap it is made from), unknown (cannot classify)."""
+
+    def __init__(self, fn, caps):
+        self.fn, self.caps = fn, tuple(caps)
+        self.cfg = fn.cfg()
+        self.fnorm = FlowNorm(fn)
+        self.rd = self.fnorm.rd
+        self.defs = def_exprs(fn)
+        self.locals = _local_names(fn)
+
+    # -- basics
+    def dep(self, e):
+        return bool(set(self.caps) & depends_on(self.fn, e, defs=self.defs))
+
+    def _defs(self, n, name):
+        """[(def node or None for the parameter value, defining expr or None)] of a local name at node n."""
+        out = []
+        for d in sorted(self.rd.get(n.id, {}).get(name, frozenset())):
+            if d == C.PARAM_DEF:
+                out.append((None, None))
+            else:
+                dn = self.cfg.nodes[d]
+                out.append((dn, self.fnorm._def_value(dn, name)))
+        return out
+
+    def copies(self, n, e, seen=None):
+        seen = set() if seen is None else seen
+        srcs, derived = set(), []
+
+        def merge(res):
+            srcs.update(res[0])
+            derived.extend(res[1])
+        if isinstance(e, ast.Constant) and e.value is None:
+            srcs.add("None")
+        elif isinstance(e, ast.Name) and e.id in self.locals:
+            ds = self._defs(n, e.id)
+            if not ds:
+                derived.append((n, e))
+            for (dn, dv) in ds:
+                if dn is None:
+                    srcs.add(e.id)
+                elif dv is None:
+                    derived.append((dn, e))
+                elif (dn.id, e.id) not in seen:
+                    seen.add((dn.id, e.id))
+                    merge(self.copies(dn, dv, seen))
+        elif isinstance(e, ast.BoolOp):
+            for v in e.values:
+                merge(self.copies(n, v, seen))
+        elif isinstance(e, ast.IfExp):
+            merge(self.copies(n, e.body, seen))
+            merge(self.copies(n, e.orelse, seen))
+        elif isinstance(e, ast.NamedExpr):
+            merge(self.copies(n, e.value, seen))
+        else:
+            derived.append((n, e))
+        return srcs, derived
+
+    def vid(self, n, e):
+        if isinstance(e, ast.Name) and e.id in self.locals:
+            ds = self._defs(n, e.id)
+            if len(ds) == 1:
+                (dn, dv) = ds[0]
+                if dn is None:
+                    return "p:" + e.id
+                if dv is not None and not (isinstance(dv, ast.Name) and dv.id == e.id):
+                    return self.vid(dn, dv)
+            return "phi:%s:%s" % (e.id, sorted(self.rd.get(n.id, {}).get(e.id, ())))
+        extra = []
+        for x in own_nodes(e):
+            if isinstance(x, ast.Name) and x.id in self.locals:
+                ds = self.rd.get(n.id, {}).get(x.id, frozenset())
+                if len(ds) != 1:
+                    extra.append("%s:%s" % (x.id, sorted(ds)))
+        return "e:%s|%s" % (self.fnorm.norm(n, e), ",".join(sorted(set(extra))))
+
+    # -- sites
+    def parse_args(self, idx):
+        fs_fn = idx.func("uri:from_string")
+        u = first_positional_params(fs_fn)[0]
+        out = []
+        for n in self.cfg.nodes:
+            for c in calls_at(n, "from_string") if n.kind in ("stmt", "test") else []:
+                if idx.resolve_expr(self.fn.module, c.func) not in (fs_fn, None):
+                    continue
+                a = arg(c, 0, u)
+                if a is None:
+                    raise AnalysisError("create_from_cap calls from_string without a cap argument")
+                out.append((n, c, a))
+        if not out:
+            raise AnchorVanished("create_from_cap no longer parses the cap with uri.from_string")
+        return out
+
+    def container_uses(self):
+        """[(node, container path, key expr, ast node, is_store)] for keyed accesses of containers living on self / module."""
+        out = []
+        for n in self.cfg.nodes:
+            for e in node_exprs(n) if n.kind in ("stmt", "test", "iter", "with") else []:
+                for x in own_nodes(e):
+                    if isinstance(x, ast.Subscript):
+                        p = attr_path(x.value)
+                        if p and p.split(".")[0] not in self.locals - {"self"} and not isinstance(x.slice, ast.Slice):
+                            out.append((n, p, x.slice, x, isinstance(x.ctx, (ast.Store, ast.Del))))
+                    elif isinstance(x, ast.Call) and isinstance(x.func, ast.Attribute) and x.args \
+                            and x.func.attr in (_KEYED_READS | _KEYED_WRITES):
+                        p = attr_path(x.func.value)
+                        if p and p.split(".")[0] not in self.locals - {"self"}:
+                            out.append((n, p, x.args[0], x, x.func.attr in _KEYED_WRITES))
+                    elif isinstance(x, ast.Compare) and len(x.ops) == 1 and isinstance(x.ops[0], (ast.In, ast.NotIn)):
+                        p = attr_path(x.comparators[0])
+                        if p and "." in p and p.split(".")[0] not in self.locals - {"self"}:
+                            out.append((n, p, x.left, x, False))
+        return out
+
+    # -- injectivity of a key in the cap string
+    def inj(self, n, e, seen=None, res=None):
+        seen = set() if seen is None else seen
+        res = {"leaves": [], "lossy": [], "unknown": [], "steps": 0} if res is None else res
+        res["steps"] += 1
+        if not self.dep(e):
+            return res                                  # carries nothing of the cap: does not matter
+        srcs, derived = self.copies(n, e)
+        if not derived and srcs - {"None"}:
+            res["leaves"].append((self.vid(n, e), n, e))     # one of the given strings, whole
+            return res
+        if isinstance(e, ast.Name):
+            ds = self._defs(n, e.id)
+            if not ds:
+                res["unknown"].append((n, e))
+            for (dn, dv) in ds:
+                if dn is None:
+                    res["leaves"].append(("p:" + e.id, n, e))
+                elif dv is None:
+                    res["unknown"].append((dn, e))
+                elif (dn.id, e.id) not in seen:
+                    seen.add((dn.id, e.id))
+                    self.inj(dn, dv, seen, res)
+            return res
+        if isinstance(e, (ast.BoolOp, ast.IfExp)):
+            for v in (e.values if isinstance(e, ast.BoolOp) else (e.body, e.orelse)):
+                self.inj(n, v, seen, res)
+            return res
+        if isinstance(e, ast.NamedExpr):
+            return self.inj(n, e.value, seen, res)
+        if isinstance(e, (ast.Tuple, ast.List)):
+            subs = []
+            for el in e.elts:
+                if isinstance(el, ast.Starred):
+                    res["unknown"].append((n, el))
+                elif self.dep(el):
+                    subs.append(self.inj(n, el, set(seen)))
+            clean = [s for s in subs if s["leaves"] and not s["lossy"] and not s["unknown"]]
+            for s in (clean or subs):                   # one whole member makes the tuple injective
+                for k in ("leaves", "lossy", "unknown"):
+                    res[k].extend(s[k])
+            res["steps"] += sum(s["steps"] for s in subs)
+            return res
+        if isinstance(e, ast.BinOp) and isinstance(e.op, ast.Add):
+            ops = []
+
+            def flat(x):
+                if isinstance(x, ast.BinOp) and isinstance(x.op, ast.Add):
+                    flat(x.left)
+                    flat(x.right)
+                else:
+                    ops.append(x)
+            flat(e)
+            carrying = [o for o in ops if self.dep(o)]
+            if len(carrying) == 1:
+                return self.inj(n, carrying[0], seen, res)
+            # several operands made from the cap: decided only when none of them is a whole cap (all are parts / images)
+            subs = [self.inj(n, o, set(seen)) for o in carrying]
+            res["steps"] += sum(s_["steps"] for s_ in subs)
+            if all(s_["lossy"] and not s_["leaves"] and not s_["unknown"] for s_ in subs):
+                for s_ in subs:
+                    res["lossy"].extend(s_["lossy"])
+            else:
+                res["unknown"].append((n, e))
+            return res
+        if self._transforms(e):
+            res["lossy"].append((n, e, "only a part of" if isinstance(e, ast.Subscript) else "a many-to-one image of"))
+            return res
+        res["unknown"].append((n, e))
+        return res
+
+    def _transforms(self, e):
+        """A slice / item / lossy string method applied to a value that carries the cap."""
+        if isinstance(e, ast.Subscript):
+            return self.dep(e.value)
+        if isinstance(e, ast.Call) and isinstance(e.func, ast.Attribute) and e.func.attr in _LOSSY_METHODS:
+            return self.dep(e.func.value)
+        return False
 
 
 
@@ -1272,3 +1489,112 @@ def run(ctx: Context):
                                 else "is not that string minus exactly the prefix", w.brief(12)), w)
         if not n_pt:
             raise AnchorVanished("no 'imm.'/'ro.' prefix test in from_string or its helpers")
+
+    # -- 14./15. create_from_cap: the given cap strings stay whole -----------------------------------------
+    # The alleged prefix is part of the cap *string*; uri.from_string and UnknownNode can honour it only if they
+    # are handed the string as it was given, and a node remembered across calls may be returned only for the very
+    # string (and context) it was parsed from.
+    _cw = {}
+
+    def cap_flow():
+        if "w" not in _cw:
+            fn = idx.func("nodemaker:NodeMaker.create_from_cap")
+            ps = first_positional_params(fn)
+            if len(ps) < 2:
+                raise AnchorVanished("create_from_cap(writecap, readcap, ..) signature changed")
+            _cw["w"] = _CapFlow(fn, ps[:2])
+        return _cw["w"]
+
+    with ctx.rule("C16.14", "R6", "create_from_cap: every key under which a node is looked up or remembered in a container "
+                  "that outlives the call is an injective function (the string itself, constant +, tuple member, copies) of "
+                  "exactly the string handed to uri.from_string - never a part or a transformation of it: otherwise a cap "
+                  "with an alleged 'ro.'/'imm.' prefix shares the entry of the bare cap and the prefix is never examined",
+                  expected=2) as r:
+        cf = cap_flow()
+        fn, cfg = cf.fn, cf.cfg
+        parses = cf.parse_args(idx)
+        parse_ids = {cf.vid(n, a) for (n, c, a) in parses}
+        uses = cf.container_uses()
+        stored = {path for (n, path, key, x, is_store) in uses if is_store}
+        uses = [u for u in uses if u[1] in stored]
+        if not uses:
+            raise AnchorVanished("create_from_cap no longer keeps nodes in a container keyed by the cap")
+        for path in sorted(stored):
+            for g in idx.funcs.values():
+                if g.module is fn.module and g is not fn and g.name != "__init__":
+                    for x in func_own_nodes(g):
+                        if isinstance(x, ast.Subscript) and isinstance(x.ctx, (ast.Store, ast.Del)) and attr_path(x.value) == path:
+                            raise AnalysisError("%s is also written by %s: cannot follow its keys" % (path, g.qual))
+        for (n, path, key, x, is_store) in uses:
+            r.site(fn, x, "%s %s[..]" % ("store into" if is_store else "lookup in", path))
+            res = cf.inj(n, key)
+            r.count(res["steps"])
+            what = "%s %s[%s]" % ("remembers a node in" if is_store else "looks a node up in", path, src(fn, key))
+            if res["lossy"]:
+                for (dn, e, why) in res["lossy"]:
+                    r.violation(fn, fn.loc(e), "create_from_cap %s, a key made from %s, which is %s the cap string and not the "
+                                "string that is parsed: two caps that differ only in that part (an alleged 'ro.'/'imm.' prefix "
+                                "and the bare cap) share one entry, so the node remembered for the bare cap - writeable, "
+                                "mutable - is returned for the prefixed one without uri.from_string ever seeing the prefix" % (
+                                    what, src(fn, e), why))
+                continue
+            if res["unknown"]:
+                (dn, e) = res["unknown"][0]
+                raise AnalysisError("create_from_cap %s: cannot tell whether %s keeps the whole cap string" % (
+                    what, src(fn, e)))
+            ids = {v for (v, dn, e) in res["leaves"]}
+            if not ids:
+                r.violation(fn, fn.loc(x), "create_from_cap %s, a key that does not contain the cap string that is parsed: a "
+                            "node remembered for one cap is returned for another" % what)
+            elif not ids <= parse_ids:
+                r.violation(fn, fn.loc(x), "create_from_cap %s, a key made from %s while the string parsed is %s: the node "
+                            "remembered under the key was not made from the string the key stands for" % (
+                                what, ", ".join(sorted({src(fn, e) for (v, dn, e) in res["leaves"] if v not in parse_ids})),
+                                ", ".join(sorted({src(fn, a) for (_n, _c, a) in parses}))))
+
+    with ctx.rule("C16.15", "R6", "create_from_cap: the string handed to uri.from_string is one of the given caps itself and "
+                  "UnknownNode receives (writecap, readcap) themselves, in their slots - never a string derived from them, "
+                  "which would have lost (or gained) the alleged prefix the callee must examine", expected=3) as r:
+        cf = cap_flow()
+        fn = cf.fn
+        wc, rc = cf.caps
+        for (n, c, a) in cf.parse_args(idx):
+            r.site(fn, c, "uri.from_string argument")
+            srcs, derived = cf.copies(n, a)
+            r.count(len(srcs) + len(derived))
+            for (dn, e) in derived:
+                r.violation(fn, fn.loc(e), "create_from_cap parses %s, which may be %s and not a given cap itself: "
+                            "uri.from_string decides from the string's 'imm.'/'ro.' prefix whether the cap may be writeable or "
+                            "mutable, so it must see the string as it was given" % (src(fn, a), src(fn, e)))
+            bad = sorted(srcs - {wc, rc, "None"})
+            r.require(not bad and (derived or srcs & {wc, rc}), fn, fn.loc(c), "create_from_cap parses %s, which is %s, not the "
+                      "given writecap/readcap" % (src(fn, a), ", ".join(bad) or "no given cap"))
+        un_init = idx.func("unknown:UnknownNode.__init__")
+        ups = first_positional_params(un_init)
+        if len(ups) < 2:
+            raise AnchorVanished("UnknownNode.__init__(given_rw_uri, given_ro_uri, ..) signature changed")
+        n_un = 0
+        for n in cf.cfg.nodes:
+            for c in calls_at(n, "UnknownNode") if n.kind in ("stmt", "test") else []:
+                n_un += 1
+                r.site(fn, c, "UnknownNode slots")
+                if any(isinstance(a, ast.Starred) for a in c.args) or any(kw.arg is None for kw in c.keywords):
+                    raise AnalysisError("UnknownNode is called with */** arguments in create_from_cap")
+                for (pos, pname, allowed, slot) in ((0, ups[0], wc, "write"), (1, ups[1], rc, "read")):
+                    a = arg(c, pos, pname)
+                    if a is None:
+                        r.violation(fn, fn.loc(c), "UnknownNode is not given its %s slot" % slot)
+                        continue
+                    srcs, derived = cf.copies(n, a)
+                    r.count(len(srcs) + len(derived))
+                    for (dn, e) in derived:
+                        r.violation(fn, fn.loc(e), "create_from_cap gives UnknownNode %s in the %s slot, which may be %s and not "
+                                    "the given %s itself: UnknownNode decides from the 'ro.'/'imm.' prefix of the strings it is "
+                                    "given which of them may be kept as a write cap" % (src(fn, a), slot, src(fn, e), allowed))
+                    bad = sorted(srcs - {allowed, "None"})
+                    r.require(not bad, fn, fn.loc(c), "create_from_cap gives UnknownNode %s (%s) in the %s slot instead of %s: %s" % (
+                        src(fn, a), ", ".join(bad), slot, allowed,
+                        "a cap that grants no write authority is reported as the node's write cap" if slot == "write" else
+                        "a cap of the write slot is published as the node's read-only cap"))
+        if not n_un:
+            raise AnchorVanished("create_from_cap no longer builds an UnknownNode")
